@@ -33,6 +33,8 @@ def run(ctx):
     if proved == 0:
         raise tlc.MachineryError("TLAPS failed to prove RegionTotal/RegionSign: %s" % ctx.notes[-1:])
     byregion = {}
+    os.makedirs(os.path.join(common.VERIF, ".work", "objfiles"), exist_ok=True)
+    scratch = os.path.join(common.VERIF, ".work", "objfiles", "scan-%d.fasta" % os.getpid())
     for rec in res.recs:
         p, n, N = rec["p"], rec["n"], rec["N"]
         x = [1] * p + [-1] * n + [0] * (N - p - n)
@@ -42,7 +44,13 @@ def run(ctx):
         if ctx.rng.random() < 0.2:
             # normalisation is part of the API: lower case and whitespace do not count as residues
             text = "".join((ctx.rng.choice([" ", "\n", "\t", "\u00a0", "\u2009", "\u3000"]) if ctx.rng.random() < 0.15 else "") + (c.lower() if ctx.rng.random() < 0.5 else c) for c in seq) + ctx.rng.choice(["", "\n", "  "])
-        out = common.call(lambda: lc.SP(text).get_phasePlotRegion())
+        if ctx.rng.random() < 0.03:
+            # the sequence read from a scratch file that is overwritten for one composition after another (often the same size)
+            with open(scratch, "w") as f:
+                f.write(">query\n" + seq + "\n")
+            out = common.call(lambda: lc.SP(sequenceFile=scratch).get_phasePlotRegion())
+        else:
+            out = common.call(lambda: lc.SP(text).get_phasePlotRegion())
         ctx.evaluations += 1
         ctx.traces += 1
         if out[0] != "ok" or isinstance(out[1], bool) or not common.is_number(out[1]) or out[1] != rec["region"]:
